@@ -141,6 +141,36 @@ def work_classes(task):
     return acc.result()
 
 
+def related(A):
+    """shapes whose helper arguments could collide with A's under a coarser cache key"""
+    (N, W) = A
+    out = []
+    for n in range(1, 11):
+        for w in range(1, 15):
+            if (n, w) != A and (n == N or w == W or n * w == N * W or (n, w) == (W, N)):
+                out.append((n, w))
+    return out
+
+
+def work_after(task):
+    """fresh process: use shape A first (memoised helpers warm up on it), then every related
+    shape B must still get its own, correct lists - the maps may not depend on call history"""
+    from vlib import lib
+    lib.load("nojit")
+    from fast_ticc.admm import unique_values as uv
+    acc = Acc()
+    for A in task:
+        class_check(uv, A[0], A[1], acc)
+        for B in related(A):
+            before = len(acc.fails)
+            class_check(uv, B[0], B[1], acc)
+            if len(acc.fails) > before:
+                (c, m, sg) = acc.fails[-1]
+                acc.fails[-1] = (dict(c, kind="after", first=list(A)), f"after shape (N,W)={A} was used first: " + m, sg)
+                return acc.result()
+    return acc.result()
+
+
 def run(ctx):
     from vlib import lib
     lib.load("nojit")
@@ -153,8 +183,26 @@ def run(ctx):
     chunks = [pairs[i::16] for i in range(16)]
     for r in ctx.pmap(work_classes, chunks):
         ctx.take(r)
+    # history independence: every shape A used first in a brand-new process, then all related shapes
+    from vlib import realpool
+    firsts = [(N, W) for N in range(1, 11) for W in range(1, 15)]
+    if not ctx.thorough:
+        firsts = [(N, W) for (N, W) in firsts if N * W <= 40]
+    groups = [firsts[i::32] for i in range(32)]
+    # one A per fresh process would be exact; grouping keeps it cheap while the FIRST shape of every
+    # group still meets cold caches.  Groups are rotated so that every A is first in some process.
+    tasks = []
+    for g in groups:
+        tasks.append(g)
+    for A in firsts:
+        tasks.append([A])
+    for r in realpool.fresh_map(work_after, tasks, jobs=16, timeout=300):
+        ctx.take(r)
+    ctx.cov["history_first_shapes"] = len(firsts)
     ctx.cov["exhaustive"] = True
     ctx.cov["rule"] = (
+        "history independence: each (N,W) (quick: NW<=40; thorough: all 140) used FIRST in a brand-new process, "
+        "then every shape sharing N, W, N*W or the swapped pair re-checked; "
         "n in 1..150: compress/reinflate round trips on distinct integers (exact) and _compressed_index(r,c,n) "
         "== row-major rank for all 0<=r<=c<n; all 140 (N,W) with N<=10, W<=14: class position lists partition "
         "the upper triangle, |class| = W-b, members agree with the definition (j//N-i//N, i%N, j%N), compressed "
@@ -167,5 +215,9 @@ def replay(ctx, case):
     lib.load("nojit")
     if case["kind"] in ("compress", "index"):
         ctx.take(work_compress([case["n"]]))
+    elif case["kind"] == "after":
+        from vlib import realpool
+        for r in realpool.fresh_map(work_after, [[tuple(case["first"])]]):
+            ctx.take(r)
     else:
         ctx.take(work_classes([(case["N"], case["W"])]))
